@@ -454,14 +454,13 @@ def _nl_header(f, b):
 
 # ----------------------------------------------------------------------------- .6
 
-def c6_count_clamp(fb, rep):
+def c6_count_clamp(fb, rep, clause='C03.6'):
     """K12 clamped count: a caller-supplied count (the MultiPV number) that indexes, offsets or is handed on
     together with the root move list is, at every such use, the minimum of something and the size of that
     list, and the list's length does not change after the clamp.  Otherwise `rootMoves[maxPV-1]`,
     `begin()+maxPV` and the PV printer run past the end for option combinations that shrink the list
     (strength limiting, search-move restrictions, tablebase root filtering)."""
     from .. import bbalg as B
-    clause = 'C03.6'
     f = fb.find1('Search::iterativeDeepening')
     if rep.need(clause, f, 'Search::iterativeDeepening') is None:
         return
